@@ -330,7 +330,7 @@ def make_vector(rng, case, nvdim):
     if nvdim == 3:
         iother = int(perm[2])
         mapping[labels[iother]] = gen.pick(rng, [None, "w_out"])
-    mapping = {lab: mapping[lab] for lab in labels}
+    mapping = gen.shuffle_keys(rng, {lab: mapping[lab] for lab in labels})
     f = df.Field(case.mesh, nvdim=nvdim, value=arr, valid=case.valid.copy(), vdims=vdims,
                  vdim_mapping=mapping)
     mclass = "identity" if (ix, iy) == (0, 1) else "permuted"
